@@ -601,7 +601,7 @@ Lemma inv_update c t th th' bag' evs :
   (forall v, cnt bag' v + pcount (is_take v) tr' + pcount (is_drop v) tr' = pcount (is_put v) tr') ->
   pc_ok (p_new c) t tr' (p_pc th') ->
   trace_ok (p_new c) tr' ->
-  PInv (PConfig (p_new c) bag' ths' tr').
+  PInv (PConfig (p_new c) (p_poolnew c) bag' ths' tr').
 Proof.
   intros [HU HB HTB HG HPC HTR] Hth Hle ths' tr' LU LB LT LG LPC LTR.
   assert (Hthin : forall v, In v (thread_vals th) -> In v (all_vals c)).
@@ -748,14 +748,26 @@ Proof.
       * left. reflexivity.
       * split; [|apply (pi_trace _ HI)]. split; [exact Hpc|].
         pose proof (pi_bag _ HI x). assert (cnt (p_bag c) x > 0) by (apply cnt_pos_In; exact Hxin). lia.
-    + injection Hs as <- <-.
-      apply (inv_update c t _ (PThread prog GNew held fresh got) (p_bag c) [PEMiss t] HI Hth); [simpl; lia|..]; simpl.
-      * intros v _. left. counts.
-      * intros v [H|H]; auto.
-      * intros e v [<-|[]]. discriminate.
-      * intro v. rewrite !pcount_cons. simpl. apply (pi_bag _ HI).
-      * exact Hpc.
-      * split; [exact I|apply (pi_trace _ HI)].
+    + destruct (p_poolnew c) eqn:Hpn; injection Hs as <- <-; rewrite <- Hpn.
+      * (* the inner pool's own New hook (never set by the present code) makes the item *)
+        apply (inv_update c t _ (PThread prog (GRet (Tok t fresh) SrcNew) held (S fresh) got) (p_bag c) [PENew t (Tok t fresh)] HI Hth); [simpl; lia|..]; simpl.
+        -- intros v _. destruct (val_eq_dec (Tok t fresh) v) as [<-|N].
+           ++ right. split; [exact Hfresh1|]. counts.
+           ++ left. counts.
+        -- intros v [H|H]; auto. unfold thread_vals in *; simpl in *. rewrite app_nil_r.
+           apply in_app_iff in H as [H|[<-|[]]]; auto. right. right.
+           apply (Hself (PThread prog (GRet (Tok t fresh) SrcNew) held (S fresh) got)). simpl. lia.
+        -- intros e v [<-|[]] [= <-]. apply (Hself (PThread prog (GRet (Tok t fresh) SrcNew) held (S fresh) got)). simpl. lia.
+        -- intro v. rewrite !pcount_cons. simpl. apply (pi_bag _ HI).
+        -- left. reflexivity.
+        -- split; [|apply (pi_trace _ HI)]. split; [exact Hpc|]. split; [eauto|exact Hfresh2].
+      * apply (inv_update c t _ (PThread prog GNew held fresh got) (p_bag c) [PEMiss t] HI Hth); [simpl; lia|..]; simpl.
+        -- intros v _. left. counts.
+        -- intros v [H|H]; auto.
+        -- intros e v [<-|[]]. discriminate.
+        -- intro v. rewrite !pcount_cons. simpl. apply (pi_bag _ HI).
+        -- exact Hpc.
+        -- split; [exact I|apply (pi_trace _ HI)].
   - (* GNew: p.New() *)
     simpl in Hpc. injection Hs as <- <-.
     apply (inv_update c t _ (PThread prog (GRet (Tok t fresh) SrcNew) held (S fresh) got) (p_bag c) [PENew t (Tok t fresh)] HI Hth); [simpl; lia|..]; simpl.
@@ -795,7 +807,7 @@ Proof.
 Qed.
 
 Lemma pgc_inv c i x : PInv c -> nth_error (p_bag c) i = Some x ->
-  PInv (PConfig (p_new c) (remove_nth i (p_bag c)) (p_threads c) (PEDrop x :: p_trace c)).
+  PInv (PConfig (p_new c) (p_poolnew c) (remove_nth i (p_bag c)) (p_threads c) (PEDrop x :: p_trace c)).
 Proof.
   intros HI Hi. pose proof (nth_error_In _ _ Hi) as Hxin.
   constructor; simpl.
@@ -827,25 +839,49 @@ Qed.
 
 (* ---- the accesses reported by a step are faithful, and none is a plain write ---- *)
 
+Lemma set_pthread_comm ths t t' x y :
+  t <> t' -> set_pthread (set_pthread ths t' x) t y = set_pthread (set_pthread ths t y) t' x.
+Proof.
+  revert t t'; induction ths as [|h r IH]; intros [|t] [|t'] N; simpl; auto; try congruence.
+  f_equal. apply IH. congruence.
+Qed.
+
+Ltac acc_fin OT2 CM :=
+  simpl; repeat split; auto;
+  try (let t' := fresh "t'" in let x := fresh "x" in let N := fresh "N" in
+       intros t' x N; rewrite (OT2 t' x N); simpl; rewrite ?(CM t' x _ N); try reflexivity;
+       match goal with Hk : nth_error _ _ = _ |- _ => rewrite Hk; simpl; rewrite ?(CM t' x _ N); reflexivity end);
+  try (let H := fresh "H" in intro H; exfalso; apply H; simpl; tauto).
+
 (* One step of goroutine t, read off the step function itself:
    - every reported access is a plain READ of New / of the inner pool's New, or a call into sync.Pool;
-   - the field New is unchanged; the bag is unchanged unless a call into sync.Pool is reported;
-   - no other goroutine's local state changes;
+   - the fields New and (inner pool) New are unchanged; the bag is unchanged unless a call into sync.Pool is
+     reported;
+   - no other goroutine's local state changes, and the step does not depend on it (it does the same whatever
+     the locals of another goroutine are);
    - a step that reports no read of New does not depend on New (it does the same with any other value of
-     the field), and a step that reports no call into sync.Pool does not depend on the bag. *)
+     the field), likewise for the inner pool's New, and a step that reports no call into sync.Pool does not
+     depend on the bag. *)
 Lemma pstep_thread_acc_sound c t ch c' accs :
   pstep_thread_acc c t ch = Some (c', accs) ->
   (forall a, In a accs -> a = PlainRead FNew \/ a = PlainRead FPoolNew \/ a = PoolInternal) /\
   p_new c' = p_new c /\
+  p_poolnew c' = p_poolnew c /\
   (~ In PoolInternal accs -> p_bag c' = p_bag c) /\
   (forall t', t' <> t -> nth_error (p_threads c') t' = nth_error (p_threads c) t') /\
+  (forall t' th, t' <> t -> pstep_thread_acc (with_thread t' th c) t ch = Some (with_thread t' th c', accs)) /\
   (~ In (PlainRead FNew) accs -> forall b, pstep_thread_acc (with_new b c) t ch = Some (with_new b c', accs)) /\
+  (~ In (PlainRead FPoolNew) accs -> forall b, pstep_thread_acc (with_poolnew b c) t ch = Some (with_poolnew b c', accs)) /\
   (~ In PoolInternal accs -> forall bag, pstep_thread_acc (with_bag bag c) t ch = Some (with_bag bag c', accs)).
 Proof.
-  unfold pstep_thread_acc, with_new, with_bag. simpl.
+  unfold pstep_thread_acc, with_new, with_poolnew, with_bag, with_thread. simpl.
   destruct (nth_error (p_threads c) t) as [th|] eqn:Hth; [|discriminate].
   assert (OT : forall th' t', t' <> t -> nth_error (set_pthread (p_threads c) t th') t' = nth_error (p_threads c) t').
   { intros th' t' N. apply nth_error_pset_other. exact N. }
+  assert (OT2 : forall t' x, t' <> t -> nth_error (set_pthread (p_threads c) t' x) t = Some th).
+  { intros t' x N. rewrite nth_error_pset_other by congruence. exact Hth. }
+  assert (CM : forall t' x y, t' <> t -> set_pthread (set_pthread (p_threads c) t' x) t y = set_pthread (set_pthread (p_threads c) t y) t' x).
+  { intros t' x y N. apply set_pthread_comm. congruence. }
   assert (A0 : forall a : paccess, In a [] -> a = PlainRead FNew \/ a = PlainRead FPoolNew \/ a = PoolInternal) by (intros a []).
   assert (A1 : forall a, In a [PlainRead FNew] -> a = PlainRead FNew \/ a = PlainRead FPoolNew \/ a = PoolInternal)
     by (intros a [<-|[]]; auto).
@@ -853,21 +889,20 @@ Proof.
     by (intros a [<-|[]]; auto).
   assert (A3 : forall a, In a [PoolInternal; PlainRead FPoolNew] -> a = PlainRead FNew \/ a = PlainRead FPoolNew \/ a = PoolInternal)
     by (intros a [<-|[<-|[]]]; auto).
-  destruct (p_pc th) as [| | | |v src|v].
-  - destruct (p_prog th) as [|[|k| |] rest]; [discriminate| | | |].
-    + intros [= <- <-]. simpl. repeat split; auto.
-    + destruct (nth_error (p_held th) k) as [x|]; intros [= <- <-]; simpl; repeat split; auto.
-    + intros [= <- <-]. simpl. repeat split; auto.
-    + intros [= <- <-]. simpl. repeat split; auto.
-  - destruct (p_new c); intros [= <- <-]; simpl; repeat split; auto;
-      try (intro H; exfalso; apply H; left; reflexivity).
+  destruct th as [prog p held fresh got]; simpl.
+  destruct p as [| | | |v src|v].
+  - destruct prog as [|[|k| |] rest]; [discriminate| | | |].
+    + intros [= <- <-]. acc_fin OT2 CM.
+    + destruct (nth_error held k) as [x|] eqn:Hk; intros [= <- <-]; acc_fin OT2 CM.
+    + intros [= <- <-]. acc_fin OT2 CM.
+    + intros [= <- <-]. acc_fin OT2 CM.
+  - destruct (p_new c); intros [= <- <-]; acc_fin OT2 CM.
   - destruct ch as [i|].
-    + destruct (nth_error (p_bag c) i) as [x|]; [|discriminate]. intros [= <- <-]. simpl. repeat split; auto;
-        try (intro H; exfalso; apply H; left; reflexivity).
-    + intros [= <- <-]. simpl. repeat split; auto; try (intro H; exfalso; apply H; left; reflexivity).
-  - intros [= <- <-]. simpl. repeat split; auto; try (intro H; exfalso; apply H; left; reflexivity).
-  - intros [= <- <-]. simpl. repeat split; auto.
-  - intros [= <- <-]. simpl. repeat split; auto; try (intro H; exfalso; apply H; left; reflexivity).
+    + destruct (nth_error (p_bag c) i) as [x|]; [|discriminate]. intros [= <- <-]. acc_fin OT2 CM.
+    + destruct (p_poolnew c); intros [= <- <-]; acc_fin OT2 CM.
+  - intros [= <- <-]. acc_fin OT2 CM.
+  - intros [= <- <-]. acc_fin OT2 CM.
+  - intros [= <- <-]. acc_fin OT2 CM.
 Qed.
 
 (* the same in the form stated as C18_pool_step_accesses: what is NOT reported does not happen *)
@@ -875,13 +910,17 @@ Theorem pool_step_accesses_faithful c t ch c' accs :
   pstep_thread_acc c t ch = Some (c', accs) ->
   pstep_thread c t ch = Some c' /\
   (~ In (PlainWrite FNew) accs -> p_new c' = p_new c) /\
+  (~ In (PlainWrite FPoolNew) accs -> p_poolnew c' = p_poolnew c) /\
   (~ In PoolInternal accs -> p_bag c' = p_bag c) /\
   (forall t', t' <> t -> nth_error (p_threads c') t' = nth_error (p_threads c) t') /\
+  (forall t' th, t' <> t -> pstep_thread_acc (with_thread t' th c) t ch = Some (with_thread t' th c', accs)) /\
   (~ In (PlainRead FNew) accs -> ~ In (PlainWrite FNew) accs ->
      forall b, pstep_thread_acc (with_new b c) t ch = Some (with_new b c', accs)) /\
+  (~ In (PlainRead FPoolNew) accs -> ~ In (PlainWrite FPoolNew) accs ->
+     forall b, pstep_thread_acc (with_poolnew b c) t ch = Some (with_poolnew b c', accs)) /\
   (~ In PoolInternal accs -> forall bag, pstep_thread_acc (with_bag bag c) t ch = Some (with_bag bag c', accs)).
 Proof.
-  intro E. destruct (pstep_thread_acc_sound _ _ _ _ _ E) as (_ & H1 & H2 & H3 & H4 & H5).
+  intro E. destruct (pstep_thread_acc_sound _ _ _ _ _ E) as (_ & H1 & H2 & H3 & H4 & H5 & H6 & H7 & H8).
   split; [unfold pstep_thread; rewrite E; reflexivity|]. repeat split; auto.
 Qed.
 
@@ -902,6 +941,23 @@ Proof.
   rewrite G. reflexivity.
 Qed.
 
+Lemma pstep_poolnew c a c' : pstep c a = Some c' -> p_poolnew c' = p_poolnew c.
+Proof.
+  destruct a as [t ch|i]; simpl.
+  - unfold pstep_thread. destruct (pstep_thread_acc c t ch) as [[c0 accs]|] eqn:E; [|discriminate].
+    intros [= <-]. apply (pstep_thread_acc_sound _ _ _ _ _ E).
+  - destruct (nth_error (p_bag c) i); [|discriminate]. intros [= <-]; reflexivity.
+Qed.
+
+(* The inner pool's own New field is never written either: it stays nil, as in the zero value of Pool. *)
+Theorem pool_poolnew_constant new progs s : p_poolnew (prun (pinit new progs) s) = false.
+Proof.
+  assert (G : forall s c, p_poolnew (prun c s) = p_poolnew c).
+  { induction s0 as [|a s0 IH]; intro c; simpl; auto.
+    destruct (pstep c a) as [c'|] eqn:E; rewrite IH; auto. eapply pstep_poolnew; eauto. }
+  rewrite G. reflexivity.
+Qed.
+
 (* Every access made in any run (from any configuration) is a plain read or a call into sync.Pool. *)
 Lemma pool_accesses_kinds s : forall c t a, In (t, a) (pool_accesses c s) ->
   a = PlainRead FNew \/ a = PlainRead FPoolNew \/ a = PoolInternal.
@@ -919,12 +975,13 @@ Qed.
    Get and Put are free of data races given that sync.Pool synchronises its own calls. *)
 Theorem pool_no_plain_write new progs s :
   p_new (prun (pinit new progs) s) = new /\
+  p_poolnew (prun (pinit new progs) s) = false /\
   (forall t a, In (t, a) (pool_accesses (pinit new progs) s) ->
      a = PlainRead FNew \/ a = PlainRead FPoolNew \/ a = PoolInternal) /\
   (forall t1 a1 t2 a2, In (t1, a1) (pool_accesses (pinit new progs) s) ->
      In (t2, a2) (pool_accesses (pinit new progs) s) -> ~ conflicting a1 a2).
 Proof.
-  split; [apply pool_new_constant|]. split; [intros t a; apply pool_accesses_kinds|].
+  split; [apply pool_new_constant|]. split; [apply pool_poolnew_constant|]. split; [intros t a; apply pool_accesses_kinds|].
   intros t1 a1 t2 a2 H1 H2 (f & [(E & _)|(E & _)]).
   - apply pool_accesses_kinds in H1. subst a1. destruct H1 as [H|[H|H]]; discriminate.
   - apply pool_accesses_kinds in H2. subst a2. destruct H2 as [H|[H|H]]; discriminate.
@@ -1045,7 +1102,9 @@ Proof.
   - destruct ch as [i|].
     + destruct (nth_error (p_bag c) i) as [x|]; [|discriminate]. intros [= <- <-]. simpl.
       apply (fin _ [PETake t x]); auto. apply N1. discriminate.
-    + intros [= <- <-]. simpl. apply (fin _ [PEMiss t]); auto. apply N1. discriminate.
+    + destruct (p_poolnew c); intros [= <- <-]; simpl.
+      * apply (fin _ [PENew t (Tok t (p_fresh th))]); auto. apply N1. discriminate.
+      * apply (fin _ [PEMiss t]); auto. apply N1. discriminate.
   - intros [= <- <-]. simpl. apply (fin _ [PENew t (Tok t (p_fresh th))]); auto. apply N1. discriminate.
   - intros [= <- <-]. simpl. eexists th, _, [PERetGet t v src]. repeat split; auto. right. exists v, src. auto.
   - intros [= <- <-]. simpl. apply (fin _ [PEPut t v]); auto. apply N1. discriminate.
